@@ -23,6 +23,7 @@ Definition tnum_n (t : tnum) : N := match t with Fst => 0 | Snd => 1 end.
 Set Implicit Arguments.
 Record backend (Code Temp : Type) := {
   b_label : string -> Code;
+  b_mark : ctx -> list Code;      (* statement-boundary marker (empty for the real back ends) *)
   b_jump : Temp -> list Code;
   b_jump_label : string -> list Code;
   b_jump_label_fixed : string -> list Code;
@@ -228,6 +229,7 @@ Definition code_table (cls : list clause) (base : string) : list Code :=
   flat_map (fun c => b_jump_label_fixed B (base +++ "_" +++ show_ident (cl_xtor c))) cls.
 
 Fixpoint code_statement (types : list tydecl) (s : stmt) (context : ctx) (lc : N) {struct s} : res (list Code * N) :=
+  dor body <-
   match s with
   | Substitute re next =>
       let tm := transpose re context in
@@ -352,7 +354,8 @@ Fixpoint code_statement (types : list tydecl) (s : stmt) (context : ctx) (lc : N
   | Exit v =>
       dor tv <- variable_temporary Snd context (idn v);
       Ok (b_mov B (b_return1 B) tv ++ b_jump_label B "cleanup", lc)
-  end.
+  end;
+  Ok (b_mark B context ++ fst body, snd body).
 
 (* coder.rs: translate + assemble + number_of_arguments *)
 Fixpoint translate (types : list tydecl) (defs : list def) (lc : N) : res (list Code * N) :=
